@@ -41,6 +41,12 @@ LEVEL_TEXT += (
     "and hands on to derived bases - is the one given or the mesh's own "
     "whole-mesh mapping, for subset and whole-mesh bases on affine and "
     "non-affine meshes.")
+LEVEL_TEXT += (
+    " Added in the hunting round (defects found by independent agents "
+    "on the unchanged tree, DESIGN.md 9.4 / 9.6): "
+    "split_bases forwards cells / facets / side like the other derived "
+    "bases; the supermesh quadrature evaluates every map at points of "
+    "its own reference frame.")
 LEVEL_NOTE = ("Trusted: numpy abs/broadcast_to; the quadrature rules deliver "
               "their degree (C08); determinants are those of C10.")
 EXPLANATION = "Symbolic constructor runs + degree audit of local bases."
